@@ -22,5 +22,5 @@ Separate Extraction
   Lex.lex Census.census Census.census_eq Census.first_missing Census.erase Census.ws_check Census.str_den
   Trivia.lead Trivia.trail Trivia.fmt_comment
   CallForm.call_form CallForm.form_ok CallForm.space_definition CallForm.space_call
-  Fmt0.format0 Fmt0.nprog Fmt0.pprog Fmt0.norm0 Fmt0.guard_free.
+  Fmt0.format0 Fmt0.nprog Fmt0.pprog Fmt0.norm0 Fmt0.guard_free Fmt0.quote_ok.
 Cd "../../coq".
